@@ -329,7 +329,41 @@ class G:
         return head + main + sub_lines
 
 
+BOTTOM_GUARDS = [
+    (["txn RekeyTo", "global ZeroAddress", "=="], "bnz"), (["txn Fee", "int 1000", ">"], "bz"),
+    (["txn CloseRemainderTo", "global ZeroAddress", "!="], "bz"), (["global GroupSize", "int 3", "=="], "bnz"),
+    (["txn AssetCloseTo", "global ZeroAddress", "==", "txn Fee", "int 2000", "<=", "&&"], "bnz"),
+    (["txn Sender", "global CreatorAddress", "==", "!"], "bz"),
+]
+
+
 def random_program(rng, kf_free=False):
+    text, feats = random_program_plain(rng, kf_free)
+    if rng.random() < 0.08:
+        # layout variant: the first check of the contract sits at the BOTTOM of the file and its conditional branch,
+        # the last instruction of the program, jumps back up to the rest of the code
+        lines = text.split("\n")
+        head, body = (lines[:1], lines[1:]) if lines and lines[0].startswith("#pragma") else ([], lines)
+        if body and not body[0].startswith("intcblock"):
+            cond, br = rng.choice(BOTTOM_GUARDS)
+            text = "\n".join(head + ["b bottom_guard", "after_guard:"] + body + ["bottom_guard:"] + cond + [f"{br} after_guard"])
+            feats = sorted(set(feats) | {"bottom-guard"})
+    if rng.random() < 0.06:
+        # the contract accepts exactly two (three) own indices, one below 8 and one at or above 8
+        lines = text.split("\n")
+        k = 1 if lines and lines[0].startswith("#pragma") else 0
+        if k < len(lines) and lines[k].startswith("intcblock"):
+            k += 1
+        a, b = rng.randrange(0, 8), rng.randrange(8, 16)
+        pre = ["txn GroupIndex", f"int {a}", "==", "txn GroupIndex", f"int {b}", "==", "||"]
+        if rng.random() < 0.3:
+            pre += ["txn GroupIndex", f"int {rng.randrange(0, 16)}", "==", "||"]
+        text = "\n".join(lines[:k] + pre + ["assert"] + lines[k:])
+        feats = sorted(set(feats) | {"index-alternatives"})
+    return text, feats
+
+
+def random_program_plain(rng, kf_free=False):
     g = G(rng, kf_free=kf_free)
     lines = g.program()
     return "\n".join(lines), sorted(g.features)
@@ -460,6 +494,19 @@ def adversarial_programs():
         "branch-to-next-line-bz": P + "txn Fee\nint 1000\n<=\nbz next\nnext:\nint 1\nreturn",
         "b-to-next-line": P + "b next\nnext:\nint 1\nreturn",
         "bz-last-instruction": P + "int 1\nstart:\ntxn Fee\nint 1000\n<\nbz start",
+        # two possible own indices, one below 8 and one at or above 8 (set iteration order differs from numeric order)
+        **{f"index-pair-{a}-{b}": P + f"txn GroupIndex\nint {a}\n==\ntxn GroupIndex\nint {b}\n==\n||\nassert\ntxn RekeyTo\nglobal ZeroAddress\n==\nassert\ntxn Fee\nint 1000\n<=\nassert\nint 1\nreturn"
+           for a, b in ((1, 8), (2, 9), (3, 8), (0, 15), (7, 8), (9, 10), (8, 1), (12, 4))},
+        **{f"index-triple-{a}-{b}-{c}": P + f"txn GroupIndex\nint {a}\n==\ntxn GroupIndex\nint {b}\n==\n||\ntxn GroupIndex\nint {c}\n==\n||\nbz fail\ntxn CloseRemainderTo\nglobal ZeroAddress\n==\nassert\nint 1\nreturn\nfail:\nerr"
+           for a, b, c in ((1, 8, 9), (0, 8, 15), (5, 13, 2))},
+        # guard laid out at the bottom of the file: the LAST instruction is a conditional branch back to the accepting code
+        "guard-at-bottom-rekey-bnz": P + "b check\nok:\nint 1\nreturn\ncheck:\ntxn RekeyTo\nglobal ZeroAddress\n==\nbnz ok",
+        "guard-at-bottom-fee-bz": P + "b check\nok:\nint 1\nreturn\ncheck:\ntxn Fee\nint 1000\n>\nbz ok",
+        "guard-at-bottom-oc-bnz": P + "b check\nok:\nint 1\nreturn\ncheck:\ntxn OnCompletion\nint UpdateApplication\n!=\nbnz ok",
+        "guard-at-bottom-gsize-bz": P + "b check\nok:\nint 1\nreturn\ncheck:\nglobal GroupSize\nint 2\n!=\nbz ok",
+        "guard-at-bottom-and": P + "b check\nok:\nint 1\nreturn\ncheck:\ntxn RekeyTo\nglobal ZeroAddress\n==\ntxn CloseRemainderTo\nglobal ZeroAddress\n==\n&&\ntxn Fee\nint 1000\n<=\n&&\nbnz ok",
+        "guard-at-bottom-or-not": P + "b check\nok:\nint 1\nreturn\ncheck:\ntxn RekeyTo\nglobal ZeroAddress\n!=\ntxn AssetCloseTo\nglobal ZeroAddress\n==\n!\n||\nbz ok",
+        "guard-at-bottom-in-sub": P + "callsub g\nint 1\nreturn\nok:\nretsub\ng:\ntxn RekeyTo\nglobal ZeroAddress\n==\nbnz ok",
         "bnz-last-instruction": P + "start:\ntxn RekeyTo\nglobal ZeroAddress\n==\nbnz start",
         "callsub-last-instruction-returns": P + "b main\nf:\ntxn RekeyTo\nglobal ZeroAddress\n==\nassert\nretsub\nmain:\nint 1\ncallsub f",
         "callsub-last-instruction-approves": P + "b main\nf:\nint 1\nreturn\nmain:\ncallsub f",
